@@ -417,7 +417,7 @@ def run(prop_id, tier, seed, replay=None):
                 "(program, operation, sub-request, #constraints, selection, args-changed) class among accepted events")
     rep.extra.update({"accepted_events": acc, "rejected_optional_requests": rej, "driver_wall_s": round(drv_s, 1),
                       "owned_clauses": sorted(own), "failing_clauses_owned_by_other_properties": other,
-                      "programs": sorted({c["pid"] for c in cases}), "tolerance_fixed_point_units": 64})
+                      "program_ids": sorted({c["pid"] for c in cases}), "programs": len({c["pid"] for c in cases}), "tolerance_fixed_point_units": 64})
     rep.assumptions = ["fingerprint table distributions (exact_density) stand for arbitrary discrete distributions; laws here do not involve normalisation",
                        "projection by public lookups over the program's finite address universe plus decoy addresses"]
     return rep.finish()
